@@ -1,10 +1,43 @@
 #!/bin/sh
-# MANIFEST.setup_cmd: build the whole Lean project (library, property theorems, compiled drivers)
-# from files on disk only. Regenerates the Gen files from /repo first so the build matches the tree.
-set -e
+# MANIFEST.setup_cmd: build the Lean project (models, property theorems, compiled drivers) from files
+# on disk only (offline). The Gen files are first regenerated from /repo so the build matches the tree.
+# Each property's targets are built separately: a failure in one does not stop the others (the
+# property's own check reports it).
 HERE="$(cd "$(dirname "$0")" && pwd)"
 cd "$HERE"
-GENS=$(ls tools/gen_*.py | sed 's#tools/gen_##; s#\.py##')
-/venv/bin/python tools/extract.py $GENS >/dev/null || true
+GENS=$(ls tools/gen_*.py 2>/dev/null | sed 's#tools/gen_##; s#\.py##')
+[ -n "$GENS" ] && /venv/bin/python tools/extract.py $GENS >/dev/null 2>&1
 cd lean
-timeout 3000 lake build
+mkdir -p .lake
+exec 9>.lake/verif.lock
+flock 9
+FAIL=""
+TARGETS=$(/venv/bin/python - <<'PY'
+import re, pathlib, sys
+H = pathlib.Path('../harness')
+t = []
+for f in sorted(H.glob('p_c*.py')):
+    s = f.read_text()
+    m = re.search(r"^DRIVERS\s*=\s*\[([^\]]*)\]", s, re.M)
+    if m: t += re.findall(r"['\"]([^'\"]+)['\"]", m.group(1))
+    m = re.search(r"^PROPS\s*=\s*['\"]([^'\"]+)['\"]", s, re.M)
+    if m: t.append(m.group(1))
+    m = re.search(r"^EXTRA_PROPS\s*=\s*\[([^\]]*)\]", s, re.M)
+    if m: t += re.findall(r"['\"]([^'\"]+)['\"]", m.group(1))
+seen = []
+for x in t:
+    if x not in seen: seen.append(x)
+print(' '.join(seen))
+PY
+)
+echo "setup: building $TARGETS"
+# one invocation first (fast path: shares work, parallel)…
+if ! timeout 3000 lake build $TARGETS >/tmp/.verif_setup.log 2>&1; then
+  # …then target by target so one broken module does not block the rest
+  for t in $TARGETS; do
+    timeout 1500 lake build "$t" >/dev/null 2>&1 || FAIL="$FAIL $t"
+  done
+fi
+[ -n "$FAIL" ] && echo "setup: targets that failed to build:$FAIL"
+echo "setup: done"
+exit 0
